@@ -446,13 +446,13 @@ theorem stNewaxis_one (pre post : List String) (new : String) (o : DimArray α)
     unfold newaxis
     have hc : o.dims.contains new = false := by
       simpa only [List.contains_eq_mem, decide_eq_false_iff_not] using hnew
-    have h0 : (((pre.length : Nat) : Int) == -1) = false := by
-      rw [beq_eq_false_iff_ne]; omega
+    have h0 : ¬ (((pre.length : Nat) : Int) < 0) := by omega
     have h2 : (decide (((pre.length : Nat) : Int) < 0) || decide (((pre.length : Nat) : Int) > (o.ndim : Int))) = false := by
       rw [hn]
       simp only [Bool.or_eq_false_iff, decide_eq_false_iff_not]
       omega
-    simp only [hc, h0, h2, Bool.false_eq_true, if_false, Int.toNat_natCast]
+    have h3 : ¬ (((pre.length : Nat) : Int) > (o.ndim : Int)) := by rw [hn]; omega
+    simp only [hc, h0, h3, decide_false, Bool.or_self, Bool.false_eq_true, if_false, Int.toNat_natCast]
     rfl
   unfold stNewaxis at h1 ⊢
   rw [List.zipIdx_append, List.zipIdx_append, List.foldlM_append, List.foldlM_append, h1, pure_bind,
